@@ -612,6 +612,31 @@ def hist_from_json(d):
             {int(o): [[tuple(x) for x in r] for r in rs] for o, rs in d["scripts"].items()})
 
 
+
+def correspond(pid, name, imports, case_ty, cases, prelude, shard=400):
+    """lib.correspondence + a retry of shards that failed to EVALUATE (negative markers): scratch
+    files are compiled outside the build lock, so a concurrent `make` of another check that is
+    rewriting the .vo files they import makes coqc fail transiently.  Real disagreements (non-negative
+    indices) are never retried."""
+    import time
+    bad, logs = lib.correspondence(pid, name, imports, case_ty, "model", "out_eqb", cases, shard=shard,
+                                   prelude=prelude)
+    for attempt in range(3):
+        failed = [-1 - b for b in bad if b < 0]
+        if not failed:
+            break
+        time.sleep(5 + 10 * attempt)
+        with lib.Lock("build"):
+            pass                                  # wait for a build in progress to finish
+        bad = [b for b in bad if b >= 0]
+        logs = []
+        for base in failed:
+            b2, l2 = lib.correspondence(pid, f"{name}r{attempt}_{base}_", imports, case_ty, "model", "out_eqb",
+                                        cases[base:base + shard], shard=shard, prelude=prelude)
+            bad += [(base + x) if x >= 0 else (-1 - base) for x in b2]
+            logs += l2
+    return bad, logs
+
 # --------------------------------------------------------------------------
 # the check shared by C20 / C21 / C23
 # --------------------------------------------------------------------------
@@ -681,8 +706,7 @@ def check_sync(chk, pid):
     prelude = (f"Definition model (c : Z * history Z) := run_history {cfg['cls']} (fst c) {FUEL} (snd c).\n"
                "Definition out_eqb (a b : list (@event Z) * bool) := "
                "list_eqb event_eqb (fst a) (fst b) && Bool.eqb (snd a) (snd b).\n")
-    bad, logs = lib.correspondence(pid, "k1", SYNC_IMPORTS, "(Z * history Z) * (list (@event Z) * bool)",
-                                   "model", "out_eqb", gal, prelude=prelude)
+    bad, logs = correspond(pid, "k1", SYNC_IMPORTS, "(Z * history Z) * (list (@event Z) * bool)", gal, prelude)
     chk.cov["traces_validated_against_impl"] = len(gal)
     chk.cov["disagreements_checked"] = len(gal)
     if bad:
@@ -881,9 +905,8 @@ def check_replay(chk):
                f"run_rhistory (fst (fst c)) (snd (fst c)) {FUEL} (snd c).\n"
                "Definition out_eqb (a b : list (@revent Z) * bool) := "
                "list_eqb revent_eqb (fst a) (fst b) && Bool.eqb (snd a) (snd b).\n")
-    bad, logs = lib.correspondence(pid, "k1", REPLAY_IMPORTS,
-                                   "((option Z * option Z) * rhistory Z) * (list (@revent Z) * bool)",
-                                   "model", "out_eqb", gal, prelude=prelude)
+    bad, logs = correspond(pid, "k1", REPLAY_IMPORTS,
+                           "((option Z * option Z) * rhistory Z) * (list (@revent Z) * bool)", gal, prelude)
     chk.cov["traces_validated_against_impl"] = len(gal)
     chk.cov["disagreements_checked"] = len(gal)
     if bad:
